@@ -6,7 +6,7 @@ ROOT = os.path.dirname(os.path.dirname(os.path.dirname(os.path.abspath(__file__)
 SC = os.path.join(ROOT, 'lean', 'SaphyrModel', 'Sc')
 SKIP = {'mkSc', 'liftI', 'err', 'getMark', 'advance', 'pushTok', 'lookahead', 'peek', 'peekNth', 'lookCh', 'bufmaxlen', 'bufIsEmpty',
         'skipBlank', 'skipNonBlank', 'skipNNonBlank', 'skipNl', 'skipLinebreak', 'skipBreak', 'allowSimpleKey', 'disallowSimpleKey',
-        'SkipTabs.foundTabs', 'SkipTabs.hasValidYamlWs', 'namedEscape', 'scanAll', 'insertToken', 'tokenPos', 'isWithinBlock',
+        'SkipTabs.foundTabs', 'SkipTabs.hasValidYamlWs', 'namedEscape', 'scanAll', 'blockEmptyContents', 'hexLoop', 'insertToken', 'tokenPos', 'isWithinBlock',
         # back-end specific fast paths: bespoke proofs (Rel/Bespoke.lean)
         'skipBlockScalarIndentSpaces', 'skipBlockScalarIndentBig', 'skipBlockScalarIndent', 'contentLineBuffered', 'contentLineRaw',
         'scanBlockScalarContentLine', 'plainChunk', 'plainChunks'}
@@ -63,7 +63,7 @@ def gen(files):
                 pa = ' '.join(pnames)
                 allb = f'∀ (f1 f2 : Nat) {pb}, ' if posts else '∀ (f1 f2 : Nat), '
                 intro_post = ' '.join(pnames)
-                lines.append(f"theorem RelS.{name} {binder(ps)} : {allb}RelS ({name} {args} f1 {pa}) ({name} {args} f2 {pa}) := by\n"
+                lines.append(f"set_option maxHeartbeats 4000000 in\ntheorem RelS.{name} {binder(ps)} : {allb}RelS ({name} {args} f1 {pa}) ({name} {args} f2 {pa}) := by\n"
                              f"  intro f1\n  induction f1 with\n"
                              f"  | zero => intro f2 {intro_post}; unfold Sc.{name}; exact RelS.panicL _ _\n"
                              f"  | succ n1 ih =>\n    intro f2 {intro_post}\n    cases f2 with\n"
